@@ -13,7 +13,7 @@ modelled as the list of created names plus the list of appended records
 of a file is the sub-list of records carrying its name.
 
 Two versions of `write`/`init` are given:
-* `write` / `init`  — the code with fixes/C17-time-rot-order.patch applied
+* `write` / `init`  — the code with fixes/C17-time-rot-write-order.patch and fixes/C17-time-rot-local-time-init.patch applied
   (period detection *before* the line is written; `use_local_time` assigned before
   it is read).  The property theorems are about these.
 * `writeLegacy` / `initLegacy` — the pinned tree (line written to the file of the
